@@ -22,7 +22,7 @@ def run(tier, rep):
     rows = os.path.join(vlib.scratch(), "c19.rows.ndjson")
     vlib.write_ndjson(rows, r.cases)
     tr = os.path.join(vlib.scratch(), "c19.trace.ndjson")
-    recs, _ = vlib.run_vh(["c19-drive", rows, tr, "3000" if thorough else "200"], timeout=3000)
+    recs, _ = vlib.run_vh(["c19-drive", rows, tr, "20000" if thorough else "200"], timeout=3000)
     for x in recs:
         if x.get("kind") == "violation":
             rep.violation(x)
